@@ -13,7 +13,7 @@
 (* Terminal states are exported as JSON for replay against the real code.  *)
 (***************************************************************************)
 EXTENDS Integers, Sequences, FiniteSets, TLC, Json
-CONSTANTS MaxFiles, Lazy, Export
+CONSTANTS MaxFiles, MaxPats, Lazy, Export
 
 VARIABLES n, pats, fault, commit, dry, engine, pc, i, written, log, exit
 vars == <<n, pats, fault, commit, dry, engine, pc, i, written, log, exit>>
@@ -21,8 +21,8 @@ vars == <<n, pats, fault, commit, dry, engine, pc, i, written, log, exit>>
 NoFault == [kind |-> "none", k |-> 0, j |-> 0]
 Faults(nn, pp) == {NoFault, [kind |-> "gate", k |-> 0, j |-> 0]}
                   \cup {[kind |-> "removed", k |-> k, j |-> 0] : k \in 1..nn}
-                  \cup {[kind |-> "nomatch", k |-> k, j |-> j] : k \in 1..nn, j \in 1..2}
-Init == /\ n \in 1..MaxFiles /\ pats \in [1..MaxFiles -> 1..2] /\ commit \in BOOLEAN /\ dry \in BOOLEAN /\ engine \in {"v2", "v1"}
+                  \cup {[kind |-> "nomatch", k |-> k, j |-> j] : k \in 1..nn, j \in 1..MaxPats}
+Init == /\ n \in 1..MaxFiles /\ pats \in [1..MaxFiles -> 1..MaxPats] /\ commit \in BOOLEAN /\ dry \in BOOLEAN /\ engine \in {"v2", "v1"}
         /\ fault = NoFault /\ pc = "choose" /\ i = 0 /\ written = {} /\ log = <<>> /\ exit = -1
 Choose == /\ pc = "choose" /\ fault' \in {f \in Faults(n, pats) : f.kind = "nomatch" => f.j <= pats[f.k]}
           /\ \A k \in (n+1)..MaxFiles : pats[k] = 1          \* unused entries are normalised
